@@ -5,6 +5,43 @@ HOOK_COMMITS = ["80fcbe6"]
 TODO = "check not built yet in this round; design in DESIGN.md section 5 (to be claimed when the TLA+ module and harness exist)"
 
 CLAIMS = {
+    "C06": {
+        "text": "TLA+ contract of Validator.Handle over abstract credential records (specs/Validator.tla: Accept = every enabled method valid; single-mutation theorem; exp/nbf/iat against a clock; ETCD "
+                "credential snapshots), model-checked by TLC; every (configuration x record) vector is enumerated by TLC and concretised >= 3x on the real filter through wire format + httpprot.NewRequest + "
+                "FetchPayload (independent HMAC JWT issuer; repository signer as client, mutated after signing; harness-written htpasswd / etcd snapshots); all logged cases are validated by TLC as a trace; "
+                "an implementation-shaped layer is checked to refine the contract.",
+        "note": "MAC strength, golang-jwt and go-htpasswd trusted; signature TTL uses time.Now() so ages are chosen >= 20 min off the boundary; OAuth2, FILE-mode reload, Host default port and tab-padded "
+                "header values are outside; outcomes the text leaves open are free",
+        "technique": "TLA+ spec + TLC model checking; TLC vector enumeration (-dump) and -simulate behaviours replayed on the real code; TLC trace validation",
+    },
+    "C09": {
+        "text": "TLA+ contract of the limiter (reservation table per refresh cycle; per-period release bound, wait <= timeout, immediate when spare, rejected only with a full horizon) with the (cycle, tokens) "
+                "arithmetic of acquirePermission / MultiRateLimiter as implementation-shaped layer refining it, model-checked; MQTT request+byte form as carried debt with the window bound; filter spec "
+                "(first matching rule, unmatched never limited, 429/rateLimited, unchanged rule keeps its limiter across Inherit incl. defaulted policies). TLC-generated behaviours replayed on the real "
+                "limiters/filter; seeded sequential, concurrent (linearisation) and MQTT histories of the real code validated by TLC.",
+        "note": "virtual clock via ratelimiter.nowFunc; filter replay at the start of the first cycle (1 h period or measured < 8 ms) with cancelled request contexts; mqttproxy limiter clock moved via private "
+                "startTime with real-clock brackets; MultiRateLimiter claimed for timeout 0 only (the only way easegress builds it); Apalache inductive invariant is extra, not verdict-bearing",
+        "technique": "TLA+ spec + TLC model checking (refinement invariant); MBT via TLC -simulate replayed in lock-step; TLC trace validation incl. linearisation and interval search; Apalache inductive check (thorough)",
+    },
+    "C11": {
+        "text": "TLA+ model of hot update (specs/HotUpdate.tla): mux instance generations with separate rules/options versions, namespace map, pipeline generation objects with per-filter state cells, and the "
+                "updater's Build/Store, Inherit/Close/Store, no-op apply, create/delete steps interleaved with request steps LoadInst/Route/GetHandler/RunFilter (in-flight Enter/Exit for Proxy). The clauses "
+                "Consistent, NoFailure, Available, Visibility, Isolation, Settled, NoOp are model-checked exhaustively at small bounds. TLC-generated schedules are replayed step by step on the real mux + "
+                "TrafficController + Pipelines + RateLimiter/Proxy, on the TrafficController alone, on bare filters, and on one-filter pipelines of every filter kind buildable offline. Stress histories of the "
+                "real mux/TrafficController/HTTPServer object, with concurrent requests against an updater, are validated by TLC against the model.",
+        "note": "Inherit/Close shapes of stateful filters are observed on the real code and fed to the model; the harness stops requests and updates only at hook-free points; HTTP/3 is stubbed; Go scheduler "
+                "interleavings inside a step are explored by stress (+ -race in thorough), not exhaustively; WasmHost is not swept (build tag); the Kafka reproduction is timing-dependent",
+        "technique": "TLA+ spec + TLC model checking; model-based schedule generation (TLC -simulate) replayed on the real code; TLC trace validation with linearisation search",
+    },
+    "C20": {
+        "text": "TLA+ contract of the object life-cycle (specs/Lifecycle.tla: per snapshot and name exactly one Init / Inherit-from-live / Close, none when unchanged, Close+Init on kind change, live set = latest "
+                "snapshot, independent of panics) model-checked with every clause as invariant/action property; an implementation-shaped model of ObjectRegistry.applyConfig, watcher events and both handlers "
+                "(LifecycleImpl) is checked to refine it; all canonical TLC-generated snapshot sequences (<= 2 snapshots x 3 names exhaustively, sampled length 3, scripted panics) are replayed on a real "
+                "Supervisor / RawConfigTrafficController / TrafficController fed through the mocked syncer and compared per step; seeded bursty 20-30-snapshot histories with panicking callbacks are validated "
+                "by TLC against the contract.",
+        "note": "callbacks observed through test-only kinds (spec equality = ver); the syncer itself is C19; order Close(old)/Init(new) of a kind change left free; the real Pipeline kind's separate store only modelled",
+        "technique": "TLA+ spec + TLC model checking (refinement); exhaustive model-based test generation (tlc -dump/-simulate) replayed on real code; TLC trace validation",
+    },
     "C02": {
         "text": "TLA+ contract of pipeline flow execution and spec validation (specs/PipelineFlow_Contract.tla) plus an implementation-shaped model of Spec.Validate/ValidateJumpIf, reload, "
                 "HandleWithBeforeAfter and the doHandle loop (specs/PipelineFlow.tla); TLC checks the refinement and the property's clauses for all flows up to a bound x all result vectors; every "
